@@ -128,6 +128,8 @@ theorem ro_getRoles (a k : Bytes) : RO (getRoles a k) := by unfold getRoles; ro
 macro_rules | `(tactic| ro_spec) => `(tactic| exact ro_getRoles _ _)
 theorem ro_checkAllowed (a t r : Bytes) : RO (checkAllowed a t r) := by unfold checkAllowed; ro
 macro_rules | `(tactic| ro_spec) => `(tactic| exact ro_checkAllowed _ _ _)
+theorem ro_checkAllowedIf (b : Bool) (a t r : Bytes) : RO (checkAllowedIf b a t r) := by unfold checkAllowedIf; ro
+macro_rules | `(tactic| ro_spec) => `(tactic| exact ro_checkAllowedIf _ _ _ _)
 theorem ro_getLatestNonce (a t : Bytes) : RO (getLatestNonce a t) := by unfold getLatestNonce; ro
 macro_rules | `(tactic| ro_spec) => `(tactic| exact ro_getLatestNonce _ _)
 theorem ro_checkLocalAction (p : Bool) (c : Call) (cost : Nat) : RO (checkLocalAction p c cost) := by
@@ -295,7 +297,7 @@ macro "fr_ro" : tactic => `(tactic| first
   | fr_ro1 (ro_marshalToken _) | fr_ro1 (ro_marshalRoles _) | fr_ro1 (ro_unmarshalToken _) | fr_ro1 (ro_unmarshalRoles _)
   | fr_ro1 (ro_checkBasic _) | fr_ro1 (ro_verifyPayable _ _) | fr_ro1 (ro_verifyPayableIf _ _ _) | fr_ro1 (ro_checkSameHash _ _) | fr_ro1 (ro_isPaused _) | fr_ro1 (ro_checkFrozeAndPause _ _ _ _)
   | fr_ro1 (ro_getESDTDataFromKey _ _) | fr_ro1 (ro_getNFTOnDestination _ _ _) | fr_ro1 (ro_getNFTOnSender _ _ _)
-  | fr_ro1 (ro_getRoles _ _) | fr_ro1 (ro_checkAllowed _ _ _) | fr_ro1 (ro_getLatestNonce _ _)
+  | fr_ro1 (ro_getRoles _ _) | fr_ro1 (ro_checkAllowed _ _ _) | fr_ro1 (ro_checkAllowedIf _ _ _ _) | fr_ro1 (ro_getLatestNonce _ _)
   | fr_ro1 (ro_checkLocalAction _ _ _) | fr_ro1 (ro_checkCreateBurnAdd _ _ _))
 
 /-- leaf: a writer with its footprint side condition(s) -/
